@@ -206,7 +206,10 @@ def opsSolver (op : String) (ins outs : List String) : Option String :=
       let covered := pv.boxes.any fun b => !Box.isEmpty b && b.length == p.length && (List.zip p b).all fun q => ratIn q.1 q.2
       let discarded := notes != "-" && (notes.splitOn "|").any fun t =>
         match parseBox t with | some c => Verdict.ratIn p c | none => false
+      let replaced := notes != "-" && (notes.splitOn "|").any fun t =>
+        t.startsWith "R" && (match parseBox (t.drop 1).toString with | some c => Verdict.ratIn p c | none => false)
       pure (if covered then "ok solution-covered"
+            else if replaced then "FAIL solution-not-in-the-paving: it lies in a cell replaced by check_sol by the existence box of a certified solution".replace " " "-"
             else if discarded then "FAIL solution-not-in-the-paving: it lies in a cell discarded by check_sol after a certification attempt".replace " " "-"
             else "FAIL solution-not-in-the-paving")
     else pure "ok infeasible"
